@@ -138,6 +138,27 @@ deriving DecidableEq, Repr
 
 def CfgRow.pk (r : CfgRow) : String := pk2 r.kind r.name
 
+/-- GHOST flags (instrumentation only: no function of the model reads them, the real store has no counterpart,
+    the engine does not print them). Each flag is raised, and stays raised, when one of the recorded mechanisms
+    by which consul's derived tables drift from their recomputation fires; the "exact under …" theorems of
+    CV.Props.C07 take "flag not raised" as their hypothesis on the log. -/
+structure Ghost where
+  /-- `freeServiceVirtualIP` freed an address that a catalog row still advertises -/
+  freedAdvertised : Bool := false
+  /-- a local instance was re-registered under another kind, name or Connect name (`ensureServiceTxn` only upserts
+      kind-service-names) -/
+  svcRewrite : Bool := false
+  /-- a local instance was registered under a name that an instance of ANOTHER kind carries (`deleteServiceTxn`
+      cleans a (kind, name) row only when no instance of that name remains) -/
+  nameKindClash : Bool := false
+  /-- a service-defaults entry with a Destination was overwritten by one without -/
+  destOverwrite : Bool := false
+deriving DecidableEq, Repr
+
+def Ghost.noteFree (g : Ghost) (b : Bool) : Ghost := ⟨g.freedAdvertised || b, g.svcRewrite, g.nameKindClash, g.destOverwrite⟩
+def Ghost.noteSvc (g : Ghost) (a b : Bool) : Ghost := ⟨g.freedAdvertised, g.svcRewrite || a, g.nameKindClash || b, g.destOverwrite⟩
+def Ghost.noteDest (g : Ghost) (b : Bool) : Ghost := ⟨g.freedAdvertised, g.svcRewrite, g.nameKindClash, g.destOverwrite || b⟩
+
 structure XState where
   loc : Cat := {}
   /-- imported catalogs, keyed by the lower-cased peer name -/
@@ -151,6 +172,7 @@ structure XState where
   usage : List UsageRow := []
   cfg : List CfgRow := []
   sysMeta : List (String × String) := []
+  ghost : Ghost := {}
 deriving DecidableEq, Repr
 
 def XState.empty : XState := {}
@@ -248,6 +270,16 @@ def cfgVipKinds : List String :=
 def cfgHasVip (kind name : String) : Bool :=
   name != "" && cfgVipKinds.contains kind && !(kind == "service-intentions" && name.contains '*')
 
+/-- row `r` of the catalog with peer key `q` advertises a virtual IP for the assignment with key `K` -/
+def advertises (q K : String) (r : Svc × SvcX) : Bool :=
+  r.2.vip.isSome && (match connectName r with
+    | some sn => vipKey q sn == K
+    | none => false)
+
+/-- some catalog row advertises a virtual IP for the assignment with key `K` (ghost) -/
+def advertisedKey (s : XState) (K : String) : Bool :=
+  s.loc.rows.any (advertises "" K) || s.peers.any (fun pc => pc.2.rows.any (advertises pc.1 K))
+
 /-- `freeServiceVirtualIP` (terminating-gateway guard: flag never set) -/
 def freeVip (s : XState) (peer name : String) : XState :=
   if !s.vipsSupported then s
@@ -255,7 +287,8 @@ def freeVip (s : XState) (peer name : String) : XState :=
   else if s.cfg.any (fun c => cfgVipKinds.contains c.kind && lc c.name == lc name) then s
   else match tfind VipRow.pk (vipKey peer name) s.vips with
     | none => s
-    | some r => { s with vips := terase VipRow.pk (vipKey peer name) s.vips, freeIP := some r.ip }
+    | some r => { s with vips := terase VipRow.pk (vipKey peer name) s.vips, freeIP := some r.ip,
+                         ghost := s.ghost.noteFree (advertisedKey s (vipKey peer name)) }
 
 /-! ### services -/
 
@@ -283,6 +316,20 @@ def reqSame (x : Svc) (e : SvcX) (q : SvcReq) : Bool :=
   q.weights && x.id == q.id && x.name == q.name && x.port == q.port && e.kind == q.kind &&
   e.native == q.native && e.dest == q.dest && e.ups == q.ups && e.vip == none
 
+/-- the Connect name of a request (`connectNameFromServiceNode` of the row it writes) -/
+def SvcReq.connectName (q : SvcReq) : Option String :=
+  if q.kind = .connectProxy then some q.dest else if q.native then some q.name else none
+
+/-- GHOST: the registration changes kind, name or Connect name of an existing local instance -/
+def svcRewriteOf (c : Cat) (node : String) (q : SvcReq) : Bool :=
+  match svcFind c.st node q.id, extFind c node q.id with
+  | some x, some ex =>
+    ex.kind != q.kind || lc x.name != lc q.name || (connectName (x, ex)).map lc != q.connectName.map lc
+  | _, _ => false
+
+/-- GHOST: the name is carried by a local instance of another kind -/
+def nameKindClashOf (c : Cat) (q : SvcReq) : Bool := c.rows.any fun r => lc r.1.name == lc q.name && r.2.kind != q.kind
+
 /-- write a service row and its attributes -/
 def XState.putSvc (s : XState) (p : String) (v : Svc) (e : SvcX) : XState :=
   let c := s.cat p
@@ -292,7 +339,10 @@ def XState.putSvc (s : XState) (p : String) (v : Svc) (e : SvcX) : XState :=
 def ensureServiceX (s : XState) (p : String) (idx : Nat) (node : String) (q : SvcReq) : Except XErr XState :=
   let c := s.cat p
   -- local services: kind-service-names (gateway-services maintenance: not modelled)
-  let s1 := if p = "" then { s with kindNames := ksnUpsert s.kindNames idx q.kind q.name } else s
+  let s1 := if p = "" then
+      { s with kindNames := ksnUpsert s.kindNames idx q.kind q.name,
+               ghost := s.ghost.noteSvc (svcRewriteOf c node q) (nameKindClashOf c q) }
+    else s
   -- connect services: connect-enabled name and virtual IP of the destination
   let r2 : Except XErr (XState × Option Nat) :=
     if q.kind = .connectProxy ∨ q.native = true then
@@ -515,7 +565,9 @@ def configUpsert (s : XState) (idx : Nat) (kind name : String) (dest : Bool) (to
   | .error e => .error e
   | .ok s2 =>
     let create := match cfgFind s kind name with | some x => x.create | none => idx
-    .ok { s2 with cfg := tupsert CfgRow.pk strLt ⟨kind, name, dest, tok, create, idx⟩ s2.cfg }
+    let over := match cfgFind s kind name with | some x => kind == "service-defaults" && x.dest && !dest | none => false
+    .ok { s2 with cfg := tupsert CfgRow.pk strLt ⟨kind, name, dest, tok, create, idx⟩ s2.cfg,
+                  ghost := s2.ghost.noteDest over }
 
 /-- `deleteConfigEntryTxn` -/
 def configDelete (s : XState) (kind name : String) : XState :=
